@@ -5,20 +5,62 @@ open Zconv
 let flavour_of cfg = match cfg with
   | "str" :: _ -> FStr | "var" :: _ -> FVar | "ptr" :: _ -> FPtr | "xml" :: _ -> FXml
   | _ -> failwith "case line needs a flavour: str | var | ptr | xml"
+let kind_of cfg = match cfg with _ :: k :: _ -> k | _ -> ""
 
 let nat s = nat_of_int (int_of_string s)
-let parse_op toks = match toks with
-  | ["create"; v; n] -> OCreate (nat v, z_of_int (int_of_string n))
-  | ["null"; v] -> ONull (nat v)
-  | ["copy"; d; s] -> OCopy (nat d, nat s)
-  | ["fromraw"; d; s] -> OFromRaw (nat d, nat s)
-  | ["assign"; d; s] -> OAssign (nat d, nat s)
-  | ["reset"; v] -> OReset (nat v)
-  | ["swap"; a; b] -> OSwap (nat a, nat b)
-  | ["write"; v] -> OWrite (nat v)
-  | ["detach"; v] -> ODetach (nat v)
-  | ["destroy"; v] -> ODestroy (nat v)
-  | _ -> failwith ("bad op: " ^ String.concat " " toks)
+
+(* contents: markers 1..7, most significant first, as a number in base 8 (RcModel.push); "-" / "_" = empty *)
+let is_digits s =
+  s = "-" || (String.length s > 0 && String.length s <= 64 &&
+              (let ok = ref true in String.iter (fun c -> if c < '1' || c > '7' then ok := false) s; !ok))
+let z_of_digits s =
+  if s = "-" || s = "_" then Z0
+  else (let acc = ref Z0 in String.iter (fun c -> acc := push !acc (z_of_int (Char.code c - 48))) s; !acc)
+let digits_of_z (x : z) : string = match x with
+  | Zpos p ->
+    let bits = pos_to_bits p [] in                      (* most significant first *)
+    let pad = (3 - List.length bits mod 3) mod 3 in
+    let bits = List.init pad (fun _ -> 0) @ bits in
+    let rec go l acc = match l with
+      | a :: b :: c :: r -> go r (acc ^ string_of_int (4 * a + 2 * b + c))
+      | _ -> acc in
+    go bits ""
+  | _ -> "_"
+
+(* mirrors the argument checks of the harness; `Bad s`: the line both sides print instead of an observation *)
+type parsed = Op of op | Ops of op list | Bad of string
+let in_range s = match int_of_string_opt s with Some v -> v >= 0 && v < 6 | None -> false
+let parse_op f kind toks : parsed =
+  match toks with
+  | o :: v :: rest when List.mem o ["create"; "null"; "copy"; "fromraw"; "assign"; "assignraw"; "assignval"; "reset"; "swap"; "write"; "detach"; "destroy"; "viaelem"] ->
+    let arg = match rest with a :: _ -> a | [] -> "-" in
+    let two = List.mem o ["copy"; "fromraw"; "assign"; "assignraw"; "swap"; "viaelem"] in
+    if not (in_range v) then Bad "?bad-var"
+    else if two && not (in_range arg) then Bad "?bad-var"
+    else begin match o with
+      | "create" -> if f = FPtr then Op (OCreate (nat v, z_of_int (int_of_string arg)))
+        else if not (is_digits arg) then Bad "?bad-contents" else Op (OCreate (nat v, z_of_digits arg))
+      | "null" -> Op (ONull (nat v))
+      | "copy" -> Op (OCopy (nat v, nat arg))
+      | "fromraw" -> Op (OFromRaw (nat v, nat arg))
+      | "assign" -> Op (OAssign (nat v, nat arg))
+      | "assignraw" -> Op (OAssignRaw (nat v, nat arg))
+      | "assignval" -> if not (is_digits arg) then Bad "?bad-contents"
+        else if f = FXml && kind <> "text" then Bad "?unsupported"
+        else Op (OAssignVal (nat v, z_of_digits arg))   (* String, Ptr: nothing happens on either side *)
+      | "viaelem" ->
+        (* d.toList().append(s); d = d.toList().back(): by value semantics a write access on d, then d = s *)
+        if not ((f = FVar && kind <> "string") || (f = FXml && kind <> "text")) then Bad "?unsupported"
+        else if v = arg then Op (ODetach (nat v)) else Ops [ODetach (nat v); OAssign (nat v, nat arg)]
+      | "reset" -> Op (OReset (nat v))
+      | "swap" -> Op (OSwap (nat v, nat arg))
+      | "write" -> (match int_of_string_opt arg with
+          | Some m when m >= 1 && m <= 7 -> if f = FXml && kind = "text" then Bad "?unsupported" else Op (OWrite (nat v, z_of_int m))
+          | _ -> Bad "?bad-contents")
+      | "detach" -> if f = FXml && kind = "text" then Bad "?unsupported" else Op (ODetach (nat v))
+      | _ -> Op (ODestroy (nat v))
+    end
+  | _ -> Bad "?unknown-op"
 
 let fault_str = function
   | FUaf _ -> "! uaf" | FDouble _ -> "! dblfree" | FUnderflow _ -> "! underflow" | FSharedWrite _ -> "! sharedwrite"
@@ -36,8 +78,8 @@ let classes (obs : vobs list) : string list =
 
 let val_str f o = match o with
   | VODead -> "D"
-  | VONull -> (match f with FStr -> "0" | _ -> "-")
-  | VOVal (b, n, _, _) -> (match f with FPtr -> Printf.sprintf "%d:%s" (int_of_nat b) (dec_of_z n) | _ -> dec_of_z n)
+  | VONull -> (match f with FStr -> "_" | _ -> "-")
+  | VOVal (b, n, _, _) -> (match f with FPtr -> Printf.sprintf "%d:%s" (int_of_nat b) (dec_of_z n) | _ -> digits_of_z n)
 let rc_str o = match o with
   | VOVal (b, _, r, Some c) -> dec_of_z r ^ (if int_of_nat b = int_of_nat c then "=" else "#")
   | VOVal (_, _, _, None) -> "0#"
@@ -45,32 +87,39 @@ let rc_str o = match o with
 
 let sval_str f x = match x with
   | SDead -> "D" | SNull -> "-"
-  | SVal (i, n) -> (match f with FPtr -> Printf.sprintf "%d:%s" (int_of_nat i) (dec_of_z n) | _ -> dec_of_z n)
+  | SVal (i, n) -> (match f with FPtr -> Printf.sprintf "%d:%s" (int_of_nat i) (dec_of_z n) | _ -> digits_of_z n)
 
 
 (* ---- concurrent cases (flavours cstr / cvar / cptr / cxml) --------------------------------------- *)
 let nv_print = 6
-type cst = { cf : flavour; mutable cval0 : int; mutable cnv : int; mutable owns : int list; mutable progs : string list list array }
+type cst = { cf : flavour; mutable cval0 : z; mutable cnv : int; mutable owns : int list; mutable progs : string list list array;
+             mutable trace : string list option }
 
 let is_conc cfg = match cfg with f :: _ -> String.length f > 1 && f.[0] = 'c' | [] -> false
 let conc_flavour cfg = match cfg with f :: r -> flavour_of (String.sub f 1 (String.length f - 1) :: r) | [] -> FStr
 
-(* harness rules: ops on variables outside the thread's range are skipped; Ptr has no write; only Ptr swaps *)
-let cop_of f nv toks : cop option =
+(* harness rules: ops on variables outside the thread's range are skipped; Ptr has no write access; only Ptr swaps.
+   `reset v`: String::clear() and then the destructor; for the other types clear() is all the destructor does
+   (~Variant() {clear();}, p = (T* )0 releases like ~Ptr) *)
+let cop_of f nv toks : cop list =
   let ok v = v >= 0 && v < nv in
   match toks with
-  | ["copy"; d; s] -> let d = int_of_string d and s = int_of_string s in if ok d && ok s then Some (CCopy (nat_of_int d, nat_of_int s)) else None
-  | ["assign"; d; s] -> let d = int_of_string d and s = int_of_string s in if ok d && ok s then Some (CAssign (nat_of_int d, nat_of_int s)) else None
-  | ["drop"; v] -> let v = int_of_string v in if ok v then Some (CDrop (nat_of_int v)) else None
-  | ["read"; v] -> let v = int_of_string v in if ok v then Some (CRead (nat_of_int v)) else None
+  | ["copy"; d; s] -> let d = int_of_string d and s = int_of_string s in if ok d && ok s then [CCopy (nat_of_int d, nat_of_int s)] else []
+  | ["assign"; d; s] -> let d = int_of_string d and s = int_of_string s in if ok d && ok s then [CAssign (nat_of_int d, nat_of_int s)] else []
+  | "drop" :: v :: _ -> let v = int_of_string v in if ok v then [CDrop (nat_of_int v)] else []
+  | "read" :: v :: _ -> let v = int_of_string v in if ok v then [CRead (nat_of_int v)] else []
   | "write" :: v :: r -> let v = int_of_string v in
-    if not (ok v) then None else if f = FPtr then None else Some (CWrite (nat_of_int v, r = ["force"]))
+    let m = (match r with m :: _ -> (match int_of_string_opt m with Some m when m >= 1 && m <= 7 -> m | _ -> 1) | [] -> 1) in
+    if not (ok v) || f = FPtr then [] else [CWrite (nat_of_int v, WAppend (z_of_int m))]
+  | "reserve" :: v :: _ -> let v = int_of_string v in if not (ok v) || f = FPtr then [] else [CWrite (nat_of_int v, WReserve)]
+  | "reset" :: v :: _ -> let v = int_of_string v in
+    if not (ok v) then [] else if f = FStr then [CWrite (nat_of_int v, WClear); CDrop (nat_of_int v)] else [CDrop (nat_of_int v)]
   | ["swap"; a; b] -> let a = int_of_string a and b = int_of_string b in
-    if f = FPtr && ok a && ok b && a <> b then Some (CSwap (nat_of_int a, nat_of_int b)) else None
+    if f = FPtr && ok a && ok b && a <> b then [CSwap (nat_of_int a, nat_of_int b)] else []
   | _ -> failwith ("bad thread op: " ^ String.concat " " toks)
 
 let cfg_of (c : cst) =
-  List.mapi (fun i n -> (nat_of_int n, List.filter_map (cop_of c.cf c.cnv) c.progs.(i))) c.owns
+  List.mapi (fun i n -> (nat_of_int n, List.concat_map (cop_of c.cf c.cnv) c.progs.(i))) c.owns
 
 let rec run_to_end st nth budget =
   if finishedb st || budget <= 0 then st
@@ -79,10 +128,13 @@ let rec run_to_end st nth budget =
 let pad l n x = l @ List.init (max 0 (n - List.length l)) (fun _ -> x)
 let join_groups gs = String.concat " ; " (List.map (String.concat " ") gs)
 
+let fault_of st = match st.cflt with
+  | Some (CUaf _) -> "! uaf" | Some (CDouble _) -> "! dblfree" | Some (CUnderflow _) -> "! underflow"
+  | Some (CSharedWrite _) -> "! sharedwrite" | Some (CFreeReferenced _) -> "! freereferenced" | None -> ""
+
 let conc_obs (c : cst) (st : cstate) : string =
   match st.cflt with
-  | Some (CUaf _) -> "! uaf" | Some (CDouble _) -> "! dblfree" | Some (CUnderflow _) -> "! underflow"
-  | Some (CSharedWrite _) -> "! sharedwrite" | Some (CFreeReferenced _) -> "! freereferenced"
+  | Some _ -> fault_of st
   | None ->
     let blk b = List.nth st.cheap (int_of_nat b) in
     let tbl = ref [] in
@@ -91,7 +143,7 @@ let conc_obs (c : cst) (st : cstate) : string =
       | None -> let k = List.length !tbl in tbl := (b, k) :: !tbl; string_of_int k in
     let vals = List.map (fun th -> pad (List.map (fun x -> match x with
         | None -> "D"
-        | Some b -> (match c.cf with FPtr -> "0:" ^ dec_of_z (blk b).cval | _ -> dec_of_z (blk b).cval)) th.tvars) nv_print "D") st.threads in
+        | Some b -> (match c.cf with FPtr -> "0:" ^ dec_of_z (blk b).cval | _ -> digits_of_z (blk b).cval)) th.tvars) nv_print "D") st.threads in
     let classes = List.map (fun th -> pad (List.map (fun x -> match x with None -> "." | Some b -> cls b) th.tvars) nv_print ".") st.threads in
     let rcs = List.map (fun th -> pad (List.map (fun x -> match x with None -> "." | Some b -> dec_of_z (blk b).crc ^ "=") th.tvars) nv_print ".") st.threads in
     (* drop every handle that is left: nothing may stay allocated *)
@@ -100,17 +152,69 @@ let conc_obs (c : cst) (st : cstate) : string =
     let nth = List.length st.threads in
     let st3 = run_to_end st2 nth (5 * c.cnv + 5) in
     let after = match st3.cflt with Some _ -> -1 | None -> int_of_nat (live_cblocks st3) in
-    Printf.sprintf "%s | live=%d | %s | %s | after=%d" (join_groups vals) (int_of_nat (live_cblocks st))
+    Printf.sprintf "%s | live=%d aux=ok | %s | %s | after=%d" (join_groups vals) (int_of_nat (live_cblocks st))
       (join_groups classes) (join_groups rcs) after
 
+let init_state (c : cst) = cinit c.cf c.cval0 (nat_of_int c.cnv) (cfg_of c)
+
+(* schedule given as one thread id per machine step (no trace available: free runs, crashed runs) *)
 let conc_run (c : cst) (sched : int list) : string =
   let cfg = cfg_of c in
-  let variant = (match c.cf with FVar | FXml -> true | _ -> false) in
-  let st0 = cinit variant (z_of_int c.cval0) (nat_of_int c.cnv) cfg in
+  let st0 = init_state c in
   let nth = List.length cfg in
   let st1 = run_sched st0 (List.map nat_of_int (List.filter (fun t -> t >= 0 && t < nth) sched)) in
   let st2 = run_to_end st1 nth (int_of_nat (steps_bound cfg) + 5) in
   if st2.cflt = None && not (finishedb st2) then "! model-did-not-finish" else conc_obs c st2
+
+(* ---- replay of the access trace the harness recorded ---------------------------------------------- *)
+let event_of_token (s : string) : event =
+  let tid = Char.code s.[0] - 48 in
+  let arg = String.sub s 2 (String.length s - 2) in
+  let k, r = match s.[1] with
+    | 'r' -> EReadRef, z_of_int (int_of_string arg)
+    | 'i' -> EInc, z_of_int (int_of_string arg)
+    | 'd' -> EDec, z_of_int (int_of_string arg)
+    | 'f' -> EFree, Z0
+    | 'a' -> EAlloc, Z0
+    | 'c' -> ECopy, Z0
+    | 'w' -> EWrite, z_of_digits arg
+    | _ -> failwith ("bad trace token " ^ s) in
+  { etid = nat_of_int tid; ekind_of = k; eres = r }
+
+let action_str = function
+  | ANone -> "nothing" | ATouch _ -> "plain-read" | AReadRef _ -> "r" | AInc _ -> "i" | ADec _ -> "d" | AFree _ -> "f"
+  | AWrite (_, nv) -> "w" ^ digits_of_z nv | AAlloc (_, _, _) -> "a"
+let expected st t = match next_action st t with
+  | Some a -> action_str a
+  | None -> (match st.cflt with Some _ -> "fault(" ^ fault_of st ^ ")" | None -> "end-of-program")
+
+(* what the machine would do next for thread t after its unobservable steps *)
+let expected_after_silent st t =
+  let rec go st n = if n = 0 then st else match next_action st t with
+      | Some (ANone | ATouch _) -> go (cstep st t) (n - 1)
+      | _ -> st in
+  expected (go st 400) t
+
+let conc_replay (c : cst) (toks : string list) : string =
+  let toks = List.filter (fun s -> s <> "-") toks in
+  if List.mem "OVERFLOW" toks then "! trace-overflow" else
+  let st0 = init_state c in
+  let nth = List.length c.owns in
+  let evs = List.map event_of_token toks in
+  let ((st1, _), rest) = replay st0 evs in
+  match rest with
+  | e :: _ ->
+    let k = List.length evs - List.length rest in
+    let t = nat_of_int (int_of_nat e.etid) in
+    Printf.sprintf "! trace-rejected at=%d event=%s machine-allows=%s" k (List.nth toks k) (expected_after_silent st1 t)
+  | [] ->
+    let (st2, _) = finish st1 (List.init nth nat_of_int) in
+    if st2.cflt <> None then fault_of st2
+    else if not (finishedb st2) then begin
+      let t = List.fold_left (fun acc (i, th) -> if acc < 0 && th.prog <> [] then i else acc) (-1) (List.mapi (fun i th -> (i, th)) st2.threads) in
+      Printf.sprintf "! trace-incomplete thread=%d machine-requires=%s" t (expected st2 (nat_of_int t))
+    end
+    else conc_obs c st2 ^ " | trace " ^ (if toks = [] then "-" else String.concat " " toks)
 
 (* a few fixed schedules for `free`: all must give the same observation *)
 let lcg s = (s * 1103515245 + 12345) land 0x3fffffff
@@ -124,7 +228,7 @@ let free_schedules (c : cst) =
 
 let conc_spec (c : cst) : string =
   let nth = List.length c.owns in
-  let sv = List.concat (List.mapi (fun _ n -> List.init nv_print (fun j -> if j < min n c.cnv then SVal (O, z_of_int c.cval0) else SDead)) c.owns) in
+  let sv = List.concat (List.mapi (fun _ n -> List.init nv_print (fun j -> if j < min n c.cnv then SVal (O, c.cval0) else SDead)) c.owns) in
   let st = ref { svars = sv; screated = S O } in
   let ok v = v >= 0 && v < c.cnv in
   Array.iteri (fun t prog ->
@@ -135,8 +239,11 @@ let conc_spec (c : cst) : string =
             let o = match toks with
               | ["copy"; d; s] -> let d = int_of_string d and s = int_of_string s in if ok d && ok s then Some (OCopy (n d, n s)) else None
               | ["assign"; d; s] -> let d = int_of_string d and s = int_of_string s in if ok d && ok s then Some (OAssign (n d, n s)) else None
-              | ["drop"; v] -> let v = int_of_string v in if ok v then Some (ODestroy (n v)) else None
-              | "write" :: v :: _ -> let v = int_of_string v in if ok v then Some (OWrite (n v)) else None
+              | "drop" :: v :: _ | "reset" :: v :: _ -> let v = int_of_string v in if ok v then Some (ODestroy (n v)) else None
+              | "write" :: v :: r -> let v = int_of_string v in
+                let m = (match r with m :: _ -> (match int_of_string_opt m with Some m when m >= 1 && m <= 7 -> m | _ -> 1) | [] -> 1) in
+                if ok v then Some (OWrite (n v, z_of_int m)) else None
+              | "reserve" :: v :: _ -> let v = int_of_string v in if ok v then Some (ODetach (n v)) else None
               | ["swap"; a; b] -> let a = int_of_string a and b = int_of_string b in if ok a && ok b && a <> b then Some (OSwap (n a, n b)) else None
               | _ -> None in
             match o with Some o -> st := spec_step c.cf !st o | None -> ()) prog) c.progs;
@@ -147,11 +254,12 @@ let conc_spec (c : cst) : string =
 
 let conc_main mode file =
   run_cases file
-    (fun cfg -> { cf = conc_flavour cfg; cval0 = 0; cnv = 1; owns = []; progs = [||] })
+    (fun cfg -> { cf = conc_flavour cfg; cval0 = Z0; cnv = 1; owns = []; progs = [||]; trace = None })
     (fun c _ toks ->
        (match toks with
         | "init" :: v :: nv :: owns ->
-          c.cval0 <- int_of_string v; c.cnv <- max 1 (min nv_print (int_of_string nv));
+          c.cval0 <- (if c.cf = FPtr then z_of_int (int_of_string v) else z_of_digits v);
+          c.cnv <- max 1 (min nv_print (int_of_string nv));
           let owns = List.filteri (fun i _ -> i < 4) owns in
           c.owns <- List.map (fun s -> max 0 (min c.cnv (int_of_string s))) owns;
           c.progs <- Array.make (List.length c.owns) [];
@@ -160,8 +268,13 @@ let conc_main mode file =
           let t = int_of_string tid in
           if t >= 0 && t < Array.length c.progs && List.length c.progs.(t) < 64 && List.length rest >= 2 then c.progs.(t) <- c.progs.(t) @ [rest];
           emit "t"
+        | "trace" :: toks -> c.trace <- Some toks
         | "go" :: ids ->
-          if mode = "spec" then emit (conc_spec c) else emit (conc_run c (List.map int_of_string ids))
+          if mode = "spec" then emit (conc_spec c)
+          else (match c.trace with
+              | Some toks -> emit (conc_replay c toks)
+              | None -> emit (conc_run c (List.map int_of_string ids)));
+          c.trace <- None
         | "free" :: _ ->
           if mode = "spec" then emit (conc_spec c) else begin
             let outs = List.map (conc_run c) (free_schedules c) in
@@ -177,39 +290,48 @@ let seq_main mode file =
   if mode = "model" || mode = "aswritten" then begin
     let obj_only = (mode = "aswritten") in
     let dead = ref false in
-    run_cases file (fun cfg -> dead := false; (flavour_of cfg, init))
-      (fun (f, st) _ toks ->
-         if !dead then (f, st) else begin
-           let (st', obs) = step_obs obj_only f st (parse_op toks) in
-           (match st'.flt with
-            | Some x -> emit (fault_str x); dead := true
-            | None ->
-              emit (Printf.sprintf "%s | live=%d dtors=%d | %s | %s"
-                      (String.concat " " (List.map (val_str f) obs))
-                      (int_of_nat (live_blocks st')) (int_of_nat (total_dtors st'))
-                      (String.concat " " (classes obs))
-                      (String.concat " " (List.map rc_str obs))));
-           (f, st')
+    run_cases file (fun cfg -> dead := false; (flavour_of cfg, kind_of cfg, init))
+      (fun (f, k, st) _ toks ->
+         if !dead then (f, k, st) else begin
+           match parse_op f k toks with
+           | Bad s -> emit s; (f, k, st)
+           | (Op _ | Ops _) as po ->
+             let (pre, o) = (match po with Op o -> ([], o) | Ops l -> (List.rev (List.tl (List.rev l)), List.hd (List.rev l)) | Bad _ -> assert false) in
+             let st = List.fold_left (fun s o -> if obj_only then step_as_written f s o else step f s o) st pre in
+             let (st', obs) = step_obs obj_only f st o in
+             (match st'.flt with
+              | Some x -> emit (fault_str x); dead := true
+              | None ->
+                emit (Printf.sprintf "%s | live=%d dtors=%d aux=ok | %s | %s"
+                        (String.concat " " (List.map (val_str f) obs))
+                        (int_of_nat (live_blocks st')) (int_of_nat (total_dtors st'))
+                        (String.concat " " (classes obs))
+                        (String.concat " " (List.map rc_str obs))));
+             (f, k, st')
          end)
-      (fun (f, st) ->
+      (fun (f, _, st) ->
          if not !dead then begin
            let st' = destroy_all f st in
            match st'.flt with
            | Some x -> emit (fault_str x)
-           | None -> emit (Printf.sprintf "end | live=%d dtors=%d" (int_of_nat (live_blocks st')) (int_of_nat (total_dtors st')))
+           | None -> emit (Printf.sprintf "end | live=%d dtors=%d aux=ok" (int_of_nat (live_blocks st')) (int_of_nat (total_dtors st')))
          end)
   end else
-    run_cases file (fun cfg -> (flavour_of cfg, sinit))
-      (fun (f, st) _ toks ->
-         let st' = spec_step f st (parse_op toks) in
-         let vals = String.concat " " (List.map (sval_str f) st'.svars) in
-         (match f with
-          | FPtr -> emit (Printf.sprintf "%s | live=%d dtors=%d" vals (int_of_nat (reachable st')) (int_of_nat (must_be_destroyed st')))
-          | _ -> emit vals);
-         (f, st'))
-      (fun (f, st) ->
+    run_cases file (fun cfg -> (flavour_of cfg, kind_of cfg, sinit))
+      (fun (f, k, st) _ toks ->
+         match parse_op f k toks with
+         | Bad s -> emit s; (f, k, st)
+         | (Op _ | Ops _) as po ->
+           let ops = (match po with Op o -> [o] | Ops l -> l | Bad _ -> []) in
+           let st' = List.fold_left (spec_step f) st ops in
+           let vals = String.concat " " (List.map (sval_str f) st'.svars) in
+           (match f with
+            | FPtr -> emit (Printf.sprintf "%s | live=%d dtors=%d aux=ok" vals (int_of_nat (reachable st')) (int_of_nat (must_be_destroyed st')))
+            | _ -> emit vals);
+           (f, k, st'))
+      (fun (f, _, st) ->
          match f with
-         | FPtr -> emit (Printf.sprintf "end | live=0 dtors=%d" (int_of_nat st.screated))
+         | FPtr -> emit (Printf.sprintf "end | live=0 dtors=%d aux=ok" (int_of_nat st.screated))
          | _ -> emit "end")
 
 (* a file holds either sequential or concurrent cases (the check keeps them in separate streams) *)
